@@ -40,6 +40,18 @@ def mix32(seed: int, *vals: int) -> int:
     return h
 
 
+def scramble_seed(seed: int) -> int:
+    """Bijective 32-bit finaliser applied once to VERIF_SEED."""
+    h = (seed & 0xFFFFFFFF) ^ 0x6A09E667
+    h = (h * 0x85EBCA6B) & 0xFFFFFFFF
+    h ^= h >> 13
+    h = (h * 0xC2B2AE35) & 0xFFFFFFFF
+    h ^= h >> 16
+    h = (h * 0x27D4EB2F) & 0xFFFFFFFF
+    h ^= h >> 15
+    return h
+
+
 @dataclass
 class Violation:
     """One violating verdict.
@@ -142,6 +154,7 @@ class Ctx:
     procs: int = 16
     t0: float = field(default_factory=time.time)
     budget_s: float = 0.0
+    seed_raw: int = 0
 
     @property
     def quick(self) -> bool:
